@@ -291,7 +291,11 @@ impl<'a> EventListenerFuture for AcquireInner<'a> {
 
         loop {
             match this.semaphore.try_acquire() {
-                Some(guard) => return Poll::Ready(guard),
+                Some(guard) => {
+                    // Stop listening; if we were notified, this passes the notification on.
+                    *this.listener = None;
+                    return Poll::Ready(guard);
+                }
                 None => {
                     // Wait on the listener.
                     if this.listener.is_none() {
@@ -344,7 +348,11 @@ impl EventListenerFuture for AcquireArcInner {
 
         loop {
             match this.semaphore.try_acquire_arc() {
-                Some(guard) => return Poll::Ready(guard),
+                Some(guard) => {
+                    // Stop listening; if we were notified, this passes the notification on.
+                    *this.listener = None;
+                    return Poll::Ready(guard);
+                }
                 None => {
                     // Wait on the listener.
                     if this.listener.is_none() {
